@@ -335,9 +335,16 @@ def run(ctx: Ctx) -> None:
         cases.append({"kind": "name", "name": nm, "prefix": rng.choice(["parsed", "parsed.", None, "pre", "a.b"]),
                       "scope": rng.choice([None, ["a"], ["a", 1], []]), "output": rng.choice([None, "cpp", "foam", "json", "xml", "weird", ""])})
     process(ctx, cases)
+    # whole histories of API calls against the world model (Model/Api.lean): returned values, counter and the complete
+    # file system at the end, byte for byte (the theorems of Props/C13api.lean are about that state machine)
+    from props import api
+    api.run(ctx, 120, 3000)
 
 
 def replay(ctx: Ctx, case: dict) -> None:
+    if case.get("kind") == "api":
+        from props import api
+        api.process(ctx, [case]); return
     process(ctx, [case])
 
 
